@@ -697,7 +697,8 @@ func (ref *Node) DoNewObject(t reflect.Type, m meta.Definition, insideList bool)
 		switch x := m.(type) {
 		case *meta.List:
 			keyMeta := x.KeyMeta()
-			if len(keyMeta) == 1 {
+			// an item inside the list is a container, only the list itself is keyed
+			if len(keyMeta) == 1 && !insideList {
 				// support some common key types, but anything too unusual should have
 				// custom implementation and would default to map[interface{}]interface{}
 				// which is likely fine
